@@ -41,7 +41,13 @@ func init() {
 			o := cc.VerifC10Run(cc.VerifC10Spec{Names: in.Names, Senders: in.Senders, Client: in.Client})
 			b, _ := json.Marshal(o)
 			seen[string(b)] = o
-			if o.Running || o.Hang != "" {
+			early := o.RunAtDone && o.Late == "fail"
+			for _, l := range o.Cbs {
+				for _, v := range l {
+					early = early || v == -3
+				}
+			}
+			if o.Running || o.Hang != "" || early {
 				break // already a violation; do not pay the polling window again
 			}
 		}
@@ -227,6 +233,32 @@ func runC10(c *gen.Ctx) error {
 						cl = append(cl, bad)
 						cl = append(cl, c10Recv(n-pos)...)
 						add("bad-early:"+bad.K, c10Distinct(n), split, append(cl, exit(0)))
+					}
+				}
+			}
+		}
+	}
+
+	// 3b. the same failures of the output stream with a client that lingers: it has read all its
+	//     requests, misbehaves after pos good answers and then neither exits nor reacts to the abort
+	//     until the harness lets it go — which happens only after the reader has finished and
+	//     isRunning() was sampled. Nothing here waits for a timer.
+	for n := 1; n <= 3; n++ {
+		for _, split := range c10Splits(n) {
+			for pos := 0; pos <= n; pos++ {
+				var badsHere []cc.VerifC10Act
+				badsHere = append(badsHere, bads...)
+				if pos > 0 {
+					badsHere = append(badsHere, resp(0)) // duplicate answer
+				}
+				for _, bad := range badsHere {
+					for code := 0; code <= 1; code++ {
+						cl := c10Recv(n)
+						for m := 0; m < pos; m++ {
+							cl = append(cl, resp(m))
+						}
+						cl = append(cl, bad, cc.VerifC10Act{K: "hang"}, exit(code))
+						add("linger:"+bad.K, c10Distinct(n), split, cl)
 					}
 				}
 			}
